@@ -197,6 +197,10 @@ Pages07 == {<<H("A:"), u1, H(" B:"), u2>> : u1 \in Uses, u2 \in Uses}
             <<Each("x", Var("xs"), <<Comp(Alias("def"), <<>>, <<Sl("", <<P(Bin("+", StrL("s:"), Var("x")))>>)>>, 1),
                                      Comp(Alias("deep"), <<Arg("n", Bin("+", Dot(Var("loop"), "iter"), IntL(0))), Arg("user", ObjL(<<[key |-> "name", ex |-> Bin("+", StrL("u"), Var("x"))]>>)),
                                                            Arg("list", ArrL(<<ObjL(<<[key |-> "a", ex |-> Bin("+", IntL(1), Dot(Var("loop"), "index"))]>>)>>))>>, <<>>, 1)>>, NoElse, 1)>>}
+      \* the surrounding variables a component sees are those visible at the place of use: the innermost binding of a name
+      \cup {<<Each("x", Var("xs"), <<Each("x", ArrL(<<StrL("i1"), StrL("i2"), StrL("i3")>>), <<Comp(Alias("echo"), <<>>, <<>>, 1)>>, NoElse, 1), H(";")>>, NoElse, 1)>>,
+            <<Each("x", Var("xs"), <<Assign("who", StrL("W2"), 1), Comp(Alias("echo"), <<>>, <<>>, 1), Comp(Alias("echo"), <<Arg("z", IntL(1))>>, <<>>, 1)>>, NoElse, 1), P(Var("who"))>>,
+            <<Each("y", ArrL(<<IntL(1), IntL(2), IntL(3)>>), <<Each("x", Var("xs"), <<If(<<Br(Dot(Var("loop"), "last"), <<Comp(Alias("echo"), <<>>, <<>>, 1)>>)>>, NoElse, 1)>>, NoElse, 1)>>, NoElse, 1)>>}
       \* a use in the @else body of a loop (and in every other block position of a loop / chain)
       \cup {<<Each("x", ArrL(<<>>), <<H("never")>>, <<H("e:"), u>>, 1), For(Assign("i", IntL(5), 1), Bin("<", Var("i"), IntL(2)), Post("++", Var("i")), <<H("never")>>, <<u, H(".")>>, 1),
               If(<<Br(IntL(0), <<H("no")>>), Br(Var("yes"), <<u>>)>>, <<H("no")>>, 1)>> : u \in Uses}
